@@ -150,6 +150,8 @@ READINGS = {
   "initial-position": ("position", "origin"),
   # tts:disparity is carried as specified, or resolved like a horizontal length
   "disparity": ("as-specified", "resolved"),
+  # a text decoration component that nothing specifies at the root: from a (partial) <initial> value, or simply off
+  "td-root-fill": ("initial", "off"),
   # `c` of lengths that run along the line (linePadding, textShadow x offset): font axis (ttconv) or the inline axis
   "inline-cell-axis": ("font", "inline"),
 }
@@ -358,8 +360,9 @@ def _resolve_element(env, elem, kind, parent, begin, end, t, region_wm):
       c = val["TextDecoration"][i]
       if c is None and below is not None:
         c = below[i]
-      if c is None and src["TextDecoration"] != "init" and "TextDecoration" in env.initials:
-        c = env.initials["TextDecoration"][i]
+      if c is None and src["TextDecoration"] != "init" and env.initials.get("TextDecoration", (0, None, None, None))[i] is not None:
+        if env.rd("td-root-fill") == "initial":
+          c = env.initials["TextDecoration"][i]
       if c is None:
         c = DEFAULTS["TextDecoration"][i]
       comps.append(c)
